@@ -203,7 +203,11 @@ impl Ctx {
                 continue;
             }
             if let Some(obs) = &rp.observed_last {
-                if t1.last() != Some(obs) {
+                let same = match t1.last() {
+                    Some(l) => l == obs || (l.starts_with("PANIC") && obs.starts_with("PANIC")),
+                    None => false,
+                };
+                if !same {
                     self.machinery(&format!(
                         "replay divergence for {}: explorer saw {:?}, straight-line replay gives {:?}",
                         key,
